@@ -113,6 +113,88 @@ def check_no_pixel_dropped(R, F, ex, res, tag, nn):
     R.floor(tag + " loop-exit segments", nseg, 1)
 
 
+def write_len(ev):
+    a1 = ev.args[1]
+    return a1.meta.poly() if isinstance(a1, Ptr) and a1.meta is not None else None
+
+
+def check_repeat_total(R, F, ex, res, tag, nn):
+    """send_repeated_pixel writes exactly count x N bytes, by telescoping over the write loop: some loop-carried
+    counter c starts as the `count` argument; every path round the loop writes N x (c at the head - c at the back
+    edge) bytes; after the loop the remaining writes total N x (final c). Error paths are prefixes (C12)."""
+    count = sym_int("count", 32, False)
+    wloops = [(lid, l) for lid, l in sorted(res.loops.items())
+              if any(TR.classify(a_["ev"]).cls == "SPI_WRITE" for c in l["cont"] for a_ in TR.annotate(c["trace"], None))]
+    if len(wloops) != 1:
+        R.undecided("C06", "%s|repeat-loop-anchor" % tag, "expected exactly one loop that writes to the SPI device, found %d" % len(wloops))
+        return
+    lid, l = wloops[0]
+    est = l["entry_state"]
+    lname = lid.split("@")[1].split("/")[0]
+    # candidate counters: loop-carried unsigned integers
+    cands = [r for r, v in est.mem.items() if isinstance(v, IntV) and not v.signed and v.poly().is_atom() is not None and "loop:" in repr(v.poly())]
+    good = []
+    for r in cands:
+        ok = bool(l["cont"])
+        for c in l["cont"]:
+            f = c["state"].facts
+            end = c["state"].mem.get(r)
+            if not isinstance(end, IntV):
+                ok = False
+                break
+            written = ZERO
+            for a_ in TR.annotate(c["trace"], None):
+                if TR.classify(a_["ev"]).cls == "SPI_WRITE":
+                    m_ = write_len(a_["ev"])
+                    written = written + (m_ if m_ is not None else sym_int("unknown-length", 64, False))
+            d = f.simplify(written - nn * (est.mem[r].poly() - end.poly()))
+            if not (f.entails_ge0(d, use_eq=True) is not None and f.entails_ge0(-d, use_eq=True) is not None):
+                ok = False
+                break
+        if ok:
+            good.append(r)
+    R.ob("C06c-repeat-loop-writes-what-it-counts", "%s|loop@%s" % (tag, lname), len(good) >= 1,
+         "no loop-carried counter c of the write loop satisfies 'bytes written on a path round the loop = N x decrease of c'",
+         sample={"loop": lname, "counters": [ex.describe_loc(r, ()) for r in good]})
+    if not good:
+        return
+    r = good[0]
+    ev0 = l["entry_values"]
+    start = [v for k, v in ev0.items() if k.split("~")[0] == ex.describe_loc(r, ()) and isinstance(v, IntV)]
+    R.ob("C06c-repeat-counter-starts-at-count", "%s|loop@%s" % (tag, lname), any(v.poly() == count for v in start),
+         "the counter of the write loop starts at %s, not at the `count` argument" % [repr(v) for v in start])
+    nok = 0
+    for o in res.outcomes:
+        if o.kind == "panic" or C.result_variant(o.value) != 0:
+            continue
+        nok += 1
+        f = o.state.facts
+        idx = [i for i, it in enumerate(o.state.trace) if isinstance(it, E.LoopMark) and it.loop_id == lid]
+        after = o.state.trace[idx[-1] + 1:] if idx else o.state.trace
+        before = o.state.trace[:idx[0]] if idx else []
+        tot = ZERO
+        und = False
+        for a_ in TR.annotate(after, None):
+            if TR.classify(a_["ev"]).cls == "SPI_WRITE":
+                m_ = write_len(a_["ev"])
+                f2 = f.copy()
+                if not all(f2.assume(c_, 1) for c_ in a_["conds"]):
+                    continue
+                if m_ is None:
+                    und = True
+                else:
+                    tot = tot + m_
+        pre = [a_ for a_ in TR.annotate(before, None) if TR.classify(a_["ev"]).cls == "SPI_WRITE"]
+        fin = o.state.mem.get(r) if idx else None
+        want = nn * (fin.poly() if isinstance(fin, IntV) else count)
+        d = f.simplify(tot - want)
+        ok = not und and not pre and f.entails_ge0(d, use_eq=True) is not None and f.entails_ge0(-d, use_eq=True) is not None
+        R.ob("C06c-repeat-remainder", "%s|ok-path%d" % (tag, nok), ok,
+             "after the write loop %r bytes are written, the counter says %r remain (writes before the loop: %d)" % (f.simplify(tot), f.simplify(want), len(pre)),
+             sample={"remaining_bytes_written": repr(f.simplify(tot)), "counter_times_n": repr(f.simplify(want))})
+    R.floor(tag + " success paths", nok, 2)
+
+
 def run(R):
     R.trusted = ["rustc nightly MIR construction", "AIM interpreter (loops by havoc-to-fixpoint, never unrolled)",
                  "embedded-hal SpiDevice::write / OutputPin contracts", "finite iterators (chunks, caller streams) end",
@@ -158,6 +240,7 @@ def run(R):
         for mname in ("send_pixels", "send_repeated_pixel"):
             rec = C.one(F.trait_impl_method(C.IFACE, mname, self_adt=SPIIF), "SpiInterface::" + mname)
             ex = R.executor(F)
+            ex.keep_dead_entry_locals = True        # the repeat counter is read at the return
             ln = sym_int("len(*self.buffer)", F.pointer_bits, False)
             nn = sym_int("const N", F.pointer_bits, False)
             res = R.run_entry(ex, rec, assume=[ln - nn, nn - 1, Poly.const((1 << 32) - 1) - ln])
@@ -183,6 +266,8 @@ def run(R):
                      sample={"fn": mname, "write": TR.where(s.ev), "length": repr(meta)})
             if mname == "send_pixels":
                 check_no_pixel_dropped(R, F, ex, res, tag, nn)
+            else:
+                check_repeat_total(R, F, ex, res, tag, nn)
             # (e) loop progress
             R.floor(tag + " loops", len(res.loops), 2)
             for lid, l in sorted(res.loops.items()):
